@@ -11,6 +11,12 @@ namespace Gzx.DMHighLevel
 /-- the oracle, asked from ASCII encodation, never proposes EDIFACT -/
 def LaNoEdifact (la : LookAhead) : Prop := ∀ m p, la m p ASCII ≠ EDIFACT
 
+/-- the same for one message only: along THIS message the oracle, asked from ASCII, never proposes EDIFACT -/
+def LaNoEdifactOn (la : LookAhead) (msg : List Nat) : Prop := ∀ p, la msg p ASCII ≠ EDIFACT
+
+theorem LaNoEdifact.on {la : LookAhead} (h : LaNoEdifact la) (msg : List Nat) : LaNoEdifactOn la msg :=
+  fun p => h msg p
+
 /-- with one character left, the oracle asked from ASCII encodation stays in ASCII -/
 def LaTailAscii (la : LookAhead) (msg : List Nat) (tot : Nat) : Prop :=
   ∀ p, p + 1 = tot → la msg p ASCII = ASCII
@@ -79,8 +85,8 @@ theorem encodeMode_b256 (syms : List SymbolInfo) (la : LookAhead) (c : Ctx) :
 theorem encodeMode_ascii (syms : List SymbolInfo) (la : LookAhead) (c : Ctx) :
     encodeMode syms la ASCII c = asciiEncode la c := by simp [encodeMode]
 
-theorem dispatch_gen {syms : List SymbolInfo} {la : LookAhead} (hNoE : LaNoEdifact la) :
-    ∀ (fuel mode : Nat) (c : Ctx) (a : Acc) (c' : Ctx) (mode' : Nat),
+theorem dispatch_gen_on {syms : List SymbolInfo} {la : LookAhead} :
+    ∀ (fuel mode : Nat) (c : Ctx) (a : Acc) (c' : Ctx) (mode' : Nat), LaNoEdifactOn la c.msg →
       (∀ x ∈ c.msg, x < 256) → Bytes c.cw → GSt la mode c a → c.newEnc = none → TrailerOK c → c.pos ≤ c.total →
       LaTailAscii la c.msg c.total → LaX12Tail la c.msg c.total →
       dispatch syms la fuel mode c = .ok (c', mode') →
@@ -89,7 +95,7 @@ theorem dispatch_gen {syms : List SymbolInfo} {la : LookAhead} (hNoE : LaNoEdifa
   intro fuel
   induction fuel with
   | zero =>
-    intro mode c a c' mode' _ hcwB hS _ _ hle _ _ h
+    intro mode c a c' mode' _ _ hcwB hS _ _ hle _ _ h
     simp only [dispatch] at h
     split at h
     · cases h
@@ -104,7 +110,7 @@ theorem dispatch_gen {syms : List SymbolInfo} {la : LookAhead} (hNoE : LaNoEdifa
       | latched _ _ hm' _ => simp [hm'] at hm
       | done256 hI _ => exact ⟨Or.inr rfl, hcwB, a, Or.inl hI, rfl, rfl, rfl, hend⟩
   | succ n ih =>
-    intro mode c a c' mode' hb hcwB hS hnew htr hle hTA hXT h
+    intro mode c a c' mode' hNoE hb hcwB hS hnew htr hle hTA hXT h
     simp only [dispatch] at h
     split at h
     · rename_i hm
@@ -122,10 +128,11 @@ theorem dispatch_gen {syms : List SymbolInfo} {la : LookAhead} (hNoE : LaNoEdifa
       have hm' : c.pos < c.total := (hasMore_iff' c).mp hm
       -- how the hypotheses about the oracle carry over to a context with the same message
       have carry : ∀ c1 : Ctx, c1.msg = c.msg → c1.skipAtEnd = c.skipAtEnd →
-          (∀ x ∈ c1.msg, x < 256) ∧ TrailerOK c1 ∧ LaTailAscii la c1.msg c1.total ∧ LaX12Tail la c1.msg c1.total := by
+          ((∀ x ∈ c1.msg, x < 256) ∧ LaNoEdifactOn la c1.msg) ∧ TrailerOK c1 ∧ LaTailAscii la c1.msg c1.total ∧
+            LaX12Tail la c1.msg c1.total := by
         intro c1 e1 e2
         have et : c1.total = c.total := by simp [Ctx.total, e1, e2]
-        refine ⟨by rw [e1]; exact hb, ?_, by rw [e1, et]; exact hTA, by rw [e1, et]; exact hXT⟩
+        refine ⟨⟨by rw [e1]; exact hb, by rw [e1]; exact hNoE⟩, ?_, by rw [e1, et]; exact hTA, by rw [e1, et]; exact hXT⟩
         unfold TrailerOK; rw [e1, e2]; exact htr
       -- one more round with the result of an encoder call that signalled ASCII
       have finish : ∀ (c1 : Ctx) (a1 : Acc), c1.msg = c.msg → c1.skipAtEnd = c.skipAtEnd → c1.pos ≤ c1.total →
@@ -140,7 +147,7 @@ theorem dispatch_gen {syms : List SymbolInfo} {la : LookAhead} (hNoE : LaNoEdifa
           rcases hres with hI | ⟨k, hk, hT⟩
           · exact GSt.ascii ⟨hI.dec, hI.text, hI.pend⟩
           · exact GSt.tail k hk ⟨hT.dec, hT.text, hT.pend, hT.full, hT.need⟩ (Or.inl rfl)
-        obtain ⟨r1, rB, a', r2, r3, r4, r5, r6⟩ := ih ASCII _ a1 c' mode' q1 hB1 hS1 rfl q2 hle1 q3 q4 hd
+        obtain ⟨r1, rB, a', r2, r3, r4, r5, r6⟩ := ih ASCII _ a1 c' mode' q1.2 q1.1 hB1 hS1 rfl q2 hle1 q3 q4 hd
         exact ⟨r1, rB, a', r2, by rw [r3, htr1], by rw [r4]; exact e1, by rw [r5]; exact e2, r6⟩
       cases hS with
       | done256 _ hf => rw [hf] at hm; cases hm
@@ -172,7 +179,7 @@ theorem dispatch_gen {syms : List SymbolInfo} {la : LookAhead} (hNoE : LaNoEdifa
                     simp [isDigit] at hdig
                   · omega
             obtain ⟨q1, q2, q3, q4⟩ := carry c1 hsf.msg hsf.skip
-            obtain ⟨r1, rB, a', r2, r3, r4, r5, r6⟩ := ih ASCII c1 a1 c' mode' q1 (ascii_bytes hb hcwB he) (GSt.ascii hI1) hn1 q2 hle1 q3 q4 h
+            obtain ⟨r1, rB, a', r2, r3, r4, r5, r6⟩ := ih ASCII c1 a1 c' mode' q1.2 q1.1 (ascii_bytes hb hcwB he) (GSt.ascii hI1) hn1 q2 hle1 q3 q4 h
             exact ⟨r1, rB, a', r2, by rw [r3, htr1], by rw [r4, hsf.msg], by rw [r5, hsf.skip], r6⟩
           | some m =>
             rw [hn1] at h
@@ -188,7 +195,7 @@ theorem dispatch_gen {syms : List SymbolInfo} {la : LookAhead} (hNoE : LaNoEdifa
               · exact Or.inr (Or.inl x)
               · exact Or.inr (Or.inr (Or.inl x))
               · exact Or.inr (Or.inr (Or.inr x))
-              · exact absurd (x ▸ hlam) (hNoE c.msg c.pos)
+              · exact absurd (x ▸ hlam) (hNoE c.pos)
             have hL : LatchedM refTables m code la ({ c1 with newEnc := none } : Ctx) a := by
               rw [hc1]
               exact ⟨c.cw, rfl, hI.dec, hI.text, hI.pend, hlam⟩
@@ -197,7 +204,7 @@ theorem dispatch_gen {syms : List SymbolInfo} {la : LookAhead} (hNoE : LaNoEdifa
             have hle1 : ({ c1 with newEnc := none } : Ctx).pos ≤ ({ c1 with newEnc := none } : Ctx).total := by
               rw [hc1]; exact hle
             obtain ⟨r1, rB, a', r2, r3, r4, r5, r6⟩ :=
-              ih m _ a c' mode' q1 (show Bytes c1.cw from ascii_bytes hb hcwB he) (GSt.latched code hL hmore1 hcases') rfl q2 hle1 q3 q4 h
+              ih m _ a c' mode' q1.2 q1.1 (show Bytes c1.cw from ascii_bytes hb hcwB he) (GSt.latched code hL hmore1 hcases') rfl q2 hle1 q3 q4 h
             refine ⟨r1, rB, a', r2, r3, ?_, ?_, r6⟩
             · rw [r4, hc1]; rfl
             · rw [r5, hc1]; rfl
@@ -234,7 +241,7 @@ theorem dispatch_gen {syms : List SymbolInfo} {la : LookAhead} (hNoE : LaNoEdifa
           simp only at h
           obtain ⟨q1, q2, q3, q4⟩ := carry c1 hsf.msg hsf.skip
           obtain ⟨r1, rB, a', r2, r3, r4, r5, r6⟩ :=
-            ih ASCII c1 a1 c' mode' q1 (ascii_bytes hb hcwB he) (GSt.tail k1 (by omega) hT1 (Or.inl rfl)) (by rw [hn1, hnew]) q2 hle1 q3 q4 h
+            ih ASCII c1 a1 c' mode' q1.2 q1.1 (ascii_bytes hb hcwB he) (GSt.tail k1 (by omega) hT1 (Or.inl rfl)) (by rw [hn1, hnew]) q2 hle1 q3 q4 h
           exact ⟨r1, rB, a', r2, by rw [r3, htr1], by rw [r4, hsf.msg], by rw [r5, hsf.skip], r6⟩
       | latched code hL _ hcases =>
         rcases hcases with ⟨rfl, rfl⟩ | ⟨rfl, rfl⟩ | ⟨rfl, rfl⟩ | ⟨rfl, rfl⟩
@@ -262,7 +269,7 @@ theorem dispatch_gen {syms : List SymbolInfo} {la : LookAhead} (hNoE : LaNoEdifa
                 rcases hres1' with hI | ⟨k, hk, hT⟩
                 · exact GSt.done256 hI hf
                 · exact GSt.tail k hk hT (Or.inr ⟨rfl, hf⟩)
-              obtain ⟨r1, rB, a', r2, r3, r4, r5, r6⟩ := ih BASE256 c1 a1 c' mode' q1 (b256_bytes hb hcwB hle he) hS1 hn q2 hpt1 q3 q4 h
+              obtain ⟨r1, rB, a', r2, r3, r4, r5, r6⟩ := ih BASE256 c1 a1 c' mode' q1.2 q1.1 (b256_bytes hb hcwB hle he) hS1 hn q2 hpt1 q3 q4 h
               exact ⟨r1, rB, a', r2, by rw [r3, htr1], by rw [r4, hmsg1], by rw [r5, hskip1], r6⟩
             · rw [hn] at h
               simp only at h
@@ -304,6 +311,15 @@ theorem dispatch_gen {syms : List SymbolInfo} {la : LookAhead} (hNoE : LaNoEdifa
             simp only at h
             exact finish c1 a1 hmsg1 hskip1 hpt1 (c40_bytes hcwB hle hm hnew he) hn htr1 hres1 h
 
+theorem dispatch_gen {syms : List SymbolInfo} {la : LookAhead} (hNoE : LaNoEdifact la)
+    (fuel mode : Nat) (c : Ctx) (a : Acc) (c' : Ctx) (mode' : Nat) :
+      (∀ x ∈ c.msg, x < 256) → Bytes c.cw → GSt la mode c a → c.newEnc = none → TrailerOK c → c.pos ≤ c.total →
+      LaTailAscii la c.msg c.total → LaX12Tail la c.msg c.total →
+      dispatch syms la fuel mode c = .ok (c', mode') →
+      (mode' = ASCII ∨ mode' = BASE256) ∧ Bytes c'.cw ∧ ∃ a', (Inv refTables c' a' ∨ ∃ k, k ≤ 1 ∧ Tail refTables c' a' k) ∧
+        a'.trailer = a.trailer ∧ c'.msg = c.msg ∧ c'.skipAtEnd = c.skipAtEnd ∧ c'.pos = c'.total :=
+  dispatch_gen_on fuel mode c a c' mode' (hNoE.on c.msg)
+
 end Gzx.DMHighLevel
 
 namespace Gzx.DMHighLevel
@@ -319,8 +335,8 @@ theorem initCtx_bytes (msg : List Nat) (cfg : Cfg) : Bytes (initCtx msg cfg).cw 
 
 /-- Round trip for every oracle that does not choose EDIFACT (from ASCII), under the two end-of-message
     conditions `LaTailAscii` and `LaX12Tail`. -/
-theorem roundtrip_gen (syms : List SymbolInfo) (la : LookAhead) (msg : List Nat) (cfg : Cfg) (cw : List Nat)
-    (hNoE : LaNoEdifact la)
+theorem roundtrip_gen_on (syms : List SymbolInfo) (la : LookAhead) (msg : List Nat) (cfg : Cfg) (cw : List Nat)
+    (hNoE : LaNoEdifactOn la msg)
     (hTA : LaTailAscii la msg (initCtx msg cfg).total) (hXT : LaX12Tail la msg (initCtx msg cfg).total)
     (hb : ∀ x ∈ msg, x < 256) (h : encodeHL syms la msg cfg = .ok cw) :
     decodeText refTables cw = .ok msg := by
@@ -333,7 +349,7 @@ theorem roundtrip_gen (syms : List SymbolInfo) (la : LookAhead) (msg : List Nat)
     rw [hd] at h
     simp only [bind, Except.bind] at h
     obtain ⟨hmode, _, a1, hres, htr1, hmsg1, hskip1, hend⟩ :=
-      dispatch_gen (syms := syms) hNoE (dispatchFuel msg) ASCII (initCtx msg cfg) a0 c1 mode
+      dispatch_gen_on (syms := syms) (dispatchFuel msg) ASCII (initCtx msg cfg) a0 c1 mode (by rw [hmsg0]; exact hNoE)
         (by rw [hmsg0]; exact hb) (initCtx_bytes msg cfg) (GSt.ascii hI0) hn0 htr0 hle0 (by rw [hmsg0]; exact hTA) (by rw [hmsg0]; exact hXT) hd
     have hm1 : c1.msg = msg := by rw [hmsg1, hmsg0]
     have htext : ∀ a : Acc, a.rev.reverse = c1.msg.take c1.pos → a.trailer = a0.trailer → a.text = msg := by
@@ -389,8 +405,8 @@ theorem roundtrip_gen (syms : List SymbolInfo) (la : LookAhead) (msg : List Nat)
           rw [htext a1 hT.text htr1]
 
 /-- the codewords `encodeHL` returns are bytes (oracles that never choose EDIFACT, same conditions) -/
-theorem encodeHL_bytes (syms : List SymbolInfo) (la : LookAhead) (msg : List Nat) (cfg : Cfg) (cw : List Nat)
-    (hNoE : LaNoEdifact la)
+theorem encodeHL_bytes_on (syms : List SymbolInfo) (la : LookAhead) (msg : List Nat) (cfg : Cfg) (cw : List Nat)
+    (hNoE : LaNoEdifactOn la msg)
     (hTA : LaTailAscii la msg (initCtx msg cfg).total) (hXT : LaX12Tail la msg (initCtx msg cfg).total)
     (hb : ∀ x ∈ msg, x < 256) (h : encodeHL syms la msg cfg = .ok cw) : Bytes cw := by
   obtain ⟨a0, hI0, hn0, htr0, hle0, hmsg0, _⟩ := initCtx_inv refTables msg cfg
@@ -402,7 +418,7 @@ theorem encodeHL_bytes (syms : List SymbolInfo) (la : LookAhead) (msg : List Nat
     rw [hd] at h
     simp only [bind, Except.bind] at h
     obtain ⟨hmode, hB1, _⟩ :=
-      dispatch_gen (syms := syms) hNoE (dispatchFuel msg) ASCII (initCtx msg cfg) a0 c1 mode
+      dispatch_gen_on (syms := syms) (dispatchFuel msg) ASCII (initCtx msg cfg) a0 c1 mode (by rw [hmsg0]; exact hNoE)
         (by rw [hmsg0]; exact hb) (initCtx_bytes msg cfg) (GSt.ascii hI0) hn0 htr0 hle0
         (by rw [hmsg0]; exact hTA) (by rw [hmsg0]; exact hXT) hd
     cases hu : c1.update syms c1.count with
@@ -437,5 +453,19 @@ theorem encodeHL_bytes (syms : List SymbolInfo) (la : LookAhead) (msg : List Nat
           · decide
           · exact hpf _ _ x hx
         · intro x hx; simp at hx
+
+/-- the original statements (oracle that never proposes EDIFACT on any message) -/
+theorem roundtrip_gen (syms : List SymbolInfo) (la : LookAhead) (msg : List Nat) (cfg : Cfg) (cw : List Nat)
+    (hNoE : LaNoEdifact la)
+    (hTA : LaTailAscii la msg (initCtx msg cfg).total) (hXT : LaX12Tail la msg (initCtx msg cfg).total)
+    (hb : ∀ x ∈ msg, x < 256) (h : encodeHL syms la msg cfg = .ok cw) :
+    decodeText refTables cw = .ok msg :=
+  roundtrip_gen_on syms la msg cfg cw (hNoE.on msg) hTA hXT hb h
+
+theorem encodeHL_bytes (syms : List SymbolInfo) (la : LookAhead) (msg : List Nat) (cfg : Cfg) (cw : List Nat)
+    (hNoE : LaNoEdifact la)
+    (hTA : LaTailAscii la msg (initCtx msg cfg).total) (hXT : LaX12Tail la msg (initCtx msg cfg).total)
+    (hb : ∀ x ∈ msg, x < 256) (h : encodeHL syms la msg cfg = .ok cw) : Bytes cw :=
+  encodeHL_bytes_on syms la msg cfg cw (hNoE.on msg) hTA hXT hb h
 
 end Gzx.DMHighLevel
